@@ -60,6 +60,14 @@ func scenarios(prop string, thorough bool) []*Scenario {
 		}
 		// a repository without any chain split points (empty verify-only locator)
 		r = append(r, &Scenario{Name: "full+txmanager/no-split-table/from-connect", Opt: netsim.Options{TxManager: true, Manager: true, NoSplits: true}, Alphabet: alpha, Depth: pick(3, 4), oracle: oracleC13})
+		// a repository that holds the headers its own verification locator names, as every
+		// synchronised one does (synthetic split at height 2 over the preloaded blocks 1 and 2): what
+		// the peer has to show is the header after them - not an empty list, not a list that starts elsewhere
+		for _, role := range []netsim.Options{{TxManager: true, Manager: true, Preload: true, SynthSplit: true}, {VerifyOnly: true, Manager: true, Preload: true, SynthSplit: true}} {
+			r = append(r, &Scenario{Name: roleName(role) + "/locator-headers-held/after-handshake", Opt: role, Prefix: []string{"version", "verack"},
+				Alphabet: []string{"headers[]", "headers[block2]", "headers[block2,unknown]", "headers[block1,block2]", "headers[block1]", "headers[unknown]", "addr[1]", "inv[tx0]", "ping", "version"},
+				Depth:    pick(3, 4), oracle: oracleC13})
+		}
 		// the same with the stream arriving in pieces (reads of at most 7 bytes)
 		r = append(r, &Scenario{Name: "full+txmanager/from-connect/short-reads-7", Opt: netsim.Options{TxManager: true, Manager: true, ReadChunk: 7}, Alphabet: alpha, Depth: pick(3, 4), oracle: oracleC13})
 		// the transaction manager is attached while the node is running (an API call order the
@@ -103,6 +111,29 @@ func scenarios(prop string, thorough bool) []*Scenario {
 		// it anyway (or anything else)
 		r = append(r, &Scenario{Name: "full+txmanager/ready+block-requested-then-cancelled", Opt: netsim.Options{TxManager: true},
 			Prefix: append(append([]string{}, ready...), "!request-block1", "!cancel-block1"), Alphabet: alpha, Depth: pick(1, 2), oracle: oracleC14})
+		// the requested block arrives in two parts with a pause in between (after the message header,
+		// inside and after the block header, after the transaction count, inside a transaction, before
+		// the last byte), and the request is cancelled during the pause - by another goroutine, while
+		// the node is blocked reading - or not; classic and extended framing, then further traffic
+		{
+			var paused []string
+			for _, base := range []string{"block[block1]", "block[block1,2tx]", "extmsg/block[block1]"} {
+				n := len(netsim.Letters[base])
+				hdr := 24
+				if strings.HasPrefix(base, "extmsg/") {
+					hdr = 44
+				}
+				for _, k := range []int{24, hdr + 40, hdr + 80, hdr + 81, hdr + 100, n - 1} {
+					if k <= 0 || k >= n {
+						continue
+					}
+					paused = append(paused, fmt.Sprintf("%s@%d", base, k), fmt.Sprintf("%s@%d+!cancel-block1", base, k))
+				}
+			}
+			r = append(r, &Scenario{Name: "full+txmanager/ready+block-requested/paused-delivery+cancel", Opt: netsim.Options{TxManager: true},
+				Prefix: append(append([]string{}, ready...), "!request-block1"), Alphabet: paused, Depth: 1,
+				Extend: []string{"ping", "tx[tx0]", "block[block1]", "headers[block1]"}, ExtendDepth: 2, oracle: oracleC14})
+		}
 		// other connections of the same process failed inside a message first (peer gone mid-payload,
 		// wrong checksum, undecodable payload): the examined connection must not notice
 		for _, kind := range []string{"truncated", "checksum", "undecodable"} {
@@ -172,6 +203,18 @@ func oracleC13(o *obs) []mc.Violation {
 			}
 			if strings.HasPrefix(l, "headers[bsv-split") && version && verack {
 				handshakeFirst = true
+			}
+		}
+		if o.sc.Opt.SynthSplit {
+			// the chain is identified by block 2: the verifying reply starts with it
+			handshakeFirst = false
+			version, verack = false, false
+			for _, l := range o.all {
+				version = version || l == "version"
+				verack = verack || l == "verack"
+				if strings.HasPrefix(l, "headers[block2") && version && verack {
+					handshakeFirst = true
+				}
 			}
 		}
 		if o.sc.Opt.NoSplits {
